@@ -225,12 +225,20 @@ func (n *Node) InsertHeaders(ids []int) (idx int, err error, died, panicked stri
 // gets them from a peer: the receipts carry their consensus fields only (they went through
 // the wire encoding), everything else the node derives itself.
 func (n *Node) InsertReceipts(ids []int) (idx int, err error, died, panicked string) {
+	idx, err, died, panicked = insertReceipts(n.U, n.BC, ids)
+	if died != "" {
+		n.Died = died
+	}
+	return
+}
+
+func insertReceipts(u *Universe, bc *core.BlockChain, ids []int) (idx int, err error, died, panicked string) {
 	blocks := make(types.Blocks, len(ids))
 	receipts := make([]types.Receipts, len(ids))
 	for i, id := range ids {
-		b := n.U.Blocks[id]
+		b := u.Blocks[id]
 		blocks[i] = types.NewBlockWithHeader(b.Header()).WithBody(b.Transactions(), b.Uncles())
-		for _, r := range n.U.Receipts[id] {
+		for _, r := range u.Receipts[id] {
 			enc, e := rlp.EncodeToBytes(r)
 			if e != nil {
 				return i, e, "", ""
@@ -242,10 +250,17 @@ func (n *Node) InsertReceipts(ids []int) (idx int, err error, died, panicked str
 			receipts[i] = append(receipts[i], wire)
 		}
 	}
-	died, panicked = guarded(func() { idx, err = n.BC.InsertReceiptChain(blocks, receipts) })
-	if died != "" {
-		n.Died = died
+	died, panicked = guarded(func() { idx, err = bc.InsertReceiptChain(blocks, receipts) })
+	return
+}
+
+func insertHeaders(u *Universe, bc *core.BlockChain, ids []int) (idx int, err error, died, panicked string) {
+	hs := make([]*types.Header, len(ids))
+	for i, id := range ids {
+		hs[i] = u.Blocks[id].Header()
+		hs[i].Version = u.Cfg.GetBlockVersion(hs[i].Number)
 	}
+	died, panicked = guarded(func() { idx, err = bc.InsertHeaderChain(hs, 1) })
 	return
 }
 
@@ -253,10 +268,18 @@ func (n *Node) InsertReceipts(ids []int) (idx int, err error, died, panicked str
 // node's database answers the scheduler's requests, in batches and in an order drawn from
 // seed; then the block becomes the node's head (the pivot of a fast sync).
 func (n *Node) SyncState(id int, seed uint64) (fetched int, err error, died, panicked string) {
-	b := n.U.Blocks[id]
+	fetched, err, died, panicked = syncState(n.U, n.BC, n.Disk, id, seed)
+	if died != "" {
+		n.Died = died
+	}
+	return
+}
+
+func syncState(u *Universe, bc *core.BlockChain, db aquadb.Database, id int, seed uint64) (fetched int, err error, died, panicked string) {
+	b := u.Blocks[id]
 	rng := kernel.NewRNG(seed)
 	died, panicked = guarded(func() {
-		sched := state.NewStateSync(b.Root(), n.Disk)
+		sched := state.NewStateSync(b.Root(), db)
 		for round := 0; round < 100000; round++ {
 			missing := sched.Missing(rng.Range(1, 24))
 			if len(missing) == 0 {
@@ -268,7 +291,7 @@ func (n *Node) SyncState(id int, seed uint64) (fetched int, err error, died, pan
 			}
 			results := make([]trie.SyncResult, 0, len(missing))
 			for _, h := range missing {
-				data, e := n.U.ODB.Get(h[:])
+				data, e := u.ODB.Get(h[:])
 				if e != nil {
 					err = fmt.Errorf("the oracle node lacks state entry %x: %v", h[:4], e)
 					return
@@ -279,7 +302,7 @@ func (n *Node) SyncState(id int, seed uint64) (fetched int, err error, died, pan
 				err = fmt.Errorf("state sync refused a correct answer: %v", e)
 				return
 			}
-			if _, e := sched.Commit(n.Disk); e != nil {
+			if _, e := sched.Commit(db); e != nil {
 				err = e
 				return
 			}
@@ -289,11 +312,8 @@ func (n *Node) SyncState(id int, seed uint64) (fetched int, err error, died, pan
 			err = fmt.Errorf("state sync still has %d entries pending with nothing left to request", sched.Pending())
 			return
 		}
-		err = n.BC.FastSyncCommitHead(b.Hash())
+		err = bc.FastSyncCommitHead(b.Hash())
 	})
-	if died != "" {
-		n.Died = died
-	}
 	return
 }
 
